@@ -21,7 +21,7 @@ for src in sys.argv[1:]:
         t = subprocess.run("/venv/bin/python -m pytest -q -p no:cacheprovider tests 2>&1 | tail -1", shell=True, cwd=scratch, env=dict(os.environ, PYTHONPATH=scratch), capture_output=True, text=True).stdout.strip()
         res = {}
         for p in props:
-            c = subprocess.run(f"./check {p} --tier quick", shell=True, cwd=VERIF, env=dict(os.environ, VERIF_REPO=scratch), capture_output=True, text=True)
+            c = subprocess.run(f"./check {p} --tier quick", shell=True, cwd=VERIF, env=dict(os.environ, VERIF_REPO=scratch, VERIF_EVIDENCE_DIR=os.path.join(scratch, "evidence")), capture_output=True, text=True)
             out = c.stdout + c.stderr
             res[p] = (c.returncode, [l[:200] for l in out.splitlines() if l.startswith(("VIOLATION", "NOTE", "CHECKER-ERROR")) or l.startswith("  ")][:4], out.strip().splitlines()[-1][:150])
         alarms = {p: v for p, v in res.items() if v[0] != 0}
